@@ -1,5 +1,5 @@
 #!/venv/bin/python
-"""Failing inputs of the genuine defects F15-F23 (DESIGN.md section 6), as runnable reproducers.
+"""Failing inputs of the genuine defects F15-F26 (DESIGN.md section 6), as runnable reproducers.
 
 Not a registered check (the checks are static): this script *runs* flox.  On the original snapshot (80f0cb3) every case fails as described;
 on the repaired tree every case prints OK.  Usage:  cd <a checkout of /repo> && /venv/bin/python /verif/defects/repro.py
@@ -77,6 +77,21 @@ def f22():
 case("F22 mixed numpy / dask groupers", f22, lambda r: r is True)
 # F23
 case("F23 blockwise, sort=False, NaN label inside a block", lambda: groupby_reduce(da.from_array(np.arange(8), chunks=4), np.array([1, 1, np.nan, 2, 3, np.nan, 4, 4]), func="sum", method="blockwise", sort=False)[0].compute().tolist(), lambda r: r == [1, 3, 4, 13])
+
+# F24
+case("F24 axis outside the labels' dimensions", lambda: groupby_reduce(np.arange(12.).reshape(3, 4), np.array([0, 1, 0, 1]), func="max", axis=0)[0].tolist(), lambda r: False, refusal_ok=True)
+# F25
+case("F25 size-1 label dimension, partial reduction", lambda: groupby_reduce(np.arange(12.).reshape(4, 3), np.array([[0], [1], [2], [0]]), func="sum", axis=-1, engine="flox", expected_groups=np.array([0, 1, 2]), fill_value=0)[0].tolist(), lambda r: r == [[3.0, 0.0, 0.0], [0.0, 12.0, 0.0], [0.0, 0.0, 21.0], [30.0, 0.0, 0.0]])
+# F26
+def f26():
+    import xarray as xr
+    from flox.xarray import xarray_reduce
+    da_ = xr.DataArray(np.arange(12.).reshape(3, 4), dims=("x", "y"), coords={"x": np.arange(3), "y": np.arange(4)}, name="a")
+    lab = xr.DataArray(np.array([0, 1, 0, 1]), dims="y", name="lab")
+    return xarray_reduce(da_, lab, func="first", dim="x")
+
+
+case("F26 xarray_reduce func='first' along a non-grouper dim", f26, refusal_ok=True)
 
 bad = 0
 for name, verdict in results:
